@@ -31,7 +31,7 @@ CHECKS = {
     "C05": ("E2-history-explorer", "model_checking",
             "bounded exhaustive lock-step differential exploration of statement histories, memory engine vs disk engine layouts",
             "Every statement history up to the depth bound followed by a fixed query battery is executed on the memory engine and on each disk layout; outcome classes and results must agree statement by statement.",
-            "Bounded: depth 3 (quick) / 4 (thorough), 3 table kinds, 2-5 disk layouts; error classes compared, not messages.",
+            "Bounded: depth 3 (quick) / 4 (thorough) from the empty database and 2 / 3 from a churned start state (row-sets compacted to nothing, reopened twice), 3 table kinds + one table with a column of every type (depth 2 / 3), 2-5 disk layouts; error classes compared, not messages.",
             "DESIGN.md §4 C05"),
     "C06": ("E1-small-scope", "exploration",
             "exhaustive small-scope enumeration of value sequences x encodings x block sizes x start rows x read/skip scripts on the real column builders and iterators, slice-arithmetic oracle",
@@ -41,7 +41,7 @@ CHECKS = {
     "C07": ("E2-history-explorer", "model_checking",
             "bounded exhaustive exploration of insert/delete/compact/reopen histories on the real engine vs a plain multiset model, checked after every step",
             "All operation sequences of the depth bound over overlapping insert batches, predicate deletes, forced compaction and reopen are executed; after every step the table must equal the model, DML counts must match, and the final ordered scan must be sorted.",
-            "Bounded: depth 4 (quick) / 5 (thorough); one table (pk / no pk); compaction driven through the real compactor by a paused clock.",
+            "Bounded: depth 4 (quick) / 5 (thorough) from the empty table and 3 / 4 from a churned start state (two delete vectors per row-set, compacted to nothing, reopened); one table (pk / no pk); compaction driven through the real compactor by a paused clock.",
             "DESIGN.md §4 C07"),
     "C08": ("E4-gate-scheduler", "model_checking",
             "stateless model checking of the implementation: exhaustive exploration of task interleavings at instrumented yield points under a controlled scheduler, preemption-bounded (CHESS-style), with a per-state invariant",
@@ -50,38 +50,38 @@ CHECKS = {
             "DESIGN.md §3 E4, §4 C08"),
     "C09": ("E4-gate-scheduler", "model_checking",
             "stateless model checking of the implementation: exhaustive preemption-bounded exploration of client/compactor interleavings at instrumented yield points, final-state oracle against a reference model",
-            "For each of 16 client workloads on two tables with two row-sets each, every schedule within the preemption bound is executed on the real engine; final and reopened table contents must equal initial + acknowledged inserts - acknowledged deletes; no panic or deadlock.",
+            "For each of 18 client workloads (two tables with two row-sets each; a table with an over-budget row-set that compaction leaves alone, so that a compaction is partial), every schedule within the preemption bound is executed on the real engine; final and reopened table contents must equal initial + acknowledged inserts - acknowledged deletes; no panic or deadlock.",
             "Bounded: 1-2 sessions x 1-2 statements, 1-2 compactor passes, preemption bound 1-2 (quick) / 2-3 (thorough); commutative workloads so the expected state is unique; statements that fail are required to have no effect.",
             "DESIGN.md §3 E4, §4 C09"),
     "C10": ("E4-gate-scheduler", "model_checking",
             "stateless model checking of the implementation (preemption-bounded schedule exploration at yield points) with a brute-force serializability oracle over a reference model",
             "For each multi-session workload every schedule within the preemption bound is executed; the acknowledged statements must admit a serial order (respecting session order) that reproduces every observed result and the final tables on the reference model; no session or task panics, no deadlock, shutdown and reopen succeed and agree.",
-            "Bounded: 2 sessions (quick) / up to 3 (thorough), <= 2 statements each, preemption bound 2/3. The clause about free-running multi-threaded runs is NOT decided (gate interleavings on a current-thread runtime only).",
+            "Bounded: 15 (quick) / 17 workloads incl. views / indexes racing CREATE TABLE, 2 sessions (quick) / up to 3 (thorough), <= 2 statements each, preemption bound 2/3. The clause about free-running multi-threaded runs is NOT decided (gate interleavings on a current-thread runtime only).",
             "DESIGN.md §3 E4, §4 C10"),
     "C13": ("E1-small-scope", "exploration",
             "exhaustive small-scope enumeration of key-range predicates x table layouts, against rows computed from the known contents (and the unoptimised full scan)",
             "Every combination of primary-key position, key type, block layout, row-set shape, bound kind, boundary constant, residual predicate and select list of the stated domain is executed with range pushdown; results must equal the rows computed independently from the inserted data.",
-            "Bounded: keys 0..61 with duplicates at 64-byte block boundaries, <= 2 row-sets + deletes, one 5000-row table for 2048-row batch boundaries; SQL level only (the storage-level scan API is reached through SQL).",
+            "Bounded: keys 0..61, five key sets whose duplicates straddle every block boundary for any block capacity (pairs from even / odd positions, triples, runs longer than a block), <= 2 row-sets + deletes, one 5000-row table for 2048-row batch boundaries; SQL level only (the storage-level scan API is reached through SQL).",
             "DESIGN.md §4 C13"),
     "C14": ("E1-small-scope", "exploration",
             "exhaustive small-scope enumeration of scalar expressions x operand domains x batch lengths x evaluation contexts, against a scalar three-valued reference interpreter",
             "Every expression of the list is evaluated over columns cycling through boundary domains with NULLs in batches of the stated lengths, as projection and (booleans) inside WHERE / OR / NOT / AND; every row is compared with a scalar SQL reference; overflow cases must be errors; all binary constant expressions must fold to their run-time value.",
-            "Bounded: ~70 expressions, domains of 6 values per type, batch lengths {1,36,63,64,65,130} (quick) / 0..200 (thorough); raw bits under NULL slots are reached only through computed NULLs at SQL level.",
+            "Bounded: ~80 expressions (incl. the untyped NULL literal), domains of 6 values per type, batch lengths {1,36,63,64,65,130} (quick) / 0..200 (thorough), five sparse NULL layouts (NULLs in one 64-row bitmap word only), 22 nested arithmetic/cast expressions over all pairs of {NULL,0,+-1,INT MIN,INT MAX}; raw bits under NULL slots are reached only through computed NULLs at SQL level.",
             "DESIGN.md §4 C14"),
     "C15": ("E3-fault-enumerators", "fault_enumeration",
             "exhaustive single-fault injection at every (operator, output item, occurrence) position x {error, panic} of every statement shape",
             "For each statement shape and engine one fault-free run lists every position at which an operator hands an item (or end of stream) to its consumers; one fault is then injected at every position; the statement must return Err or the complete fault-free answer, and a failed DML must leave the tables unchanged (also after reopen).",
-            "Bounded: 16 statement shapes, 2-3 engine configurations, 2300-row inputs (3 chunks), single faults; faults on the committing DML operator's own output are excluded (after the commit point).",
+            "Bounded: 19 statement shapes, 2-3 engine configurations, 2300-row inputs (3 chunks) and a 20-chunk input (fault positions beyond an operator's 16-slot output channel), single faults; faults on the committing DML operator's own output are excluded (after the commit point).",
             "DESIGN.md §3 E3, §4 C15"),
     "C16": ("E1-small-scope", "exploration",
             "exhaustive small-scope enumeration: (a) runtime vs statically derived column types over the statement corpus, (b) INSERT sources x column types x constraints",
             "(a) every corpus statement that executes: each returned chunk carries exactly the statically derived column kinds; (b) every combination of column type, nullability/primary-key constraint and insert source: the stored value has the declared type, is NULL only if nullable and equals the lossless conversion, or the INSERT failed.",
-            "Bounded: 8 column types, 9 literals + NULL/omitted/INSERT..SELECT sources; expected stored values asserted only where the conversion is unambiguous.",
+            "Bounded: 10 column types (incl. VECTOR(3), INTERVAL), 22 literals + NULL/omitted/INSERT..SELECT sources; expected stored values asserted only where the conversion is unambiguous.",
             "DESIGN.md §4 C16"),
     "C17": ("E1-small-scope", "exploration",
             "exhaustive small-scope enumeration of accepted statements x databases x engines x statistics, with a static well-formedness walk of every optimised plan and a guarded build/run",
             "For every statement of the corpus that the binder accepts: the optimizer terminates without panic, the optimised plan satisfies the executor's structural requirements (walked statically on the real plan with the real schema analysis), its output types equal the bound plan's, and building and running it does not panic.",
-            "Bounded: qgen corpus + 42 extra forms, 6 (quick) / 60 (thorough) databases, 2 engines, 2-3 statistics assignments; planning time above 2.5 s is reported (egg's wall-clock limit is uncontrolled).",
+            "Bounded: qgen corpus (incl. aggregates / windows / joins over every numeric column type and IN subqueries with computed select items) + 49 extra forms, 6 (quick) / 60 (thorough) databases, 2 engines, 2-3 statistics assignments; plus the statement-form explorer: ~180 DDL / settings / utility / odd-DML / unsupported-SQL forms alone and in ordered pairs through Database::run (no panic, session and directory usable afterwards); planning time above 2.5 s is reported (egg's wall-clock limit is uncontrolled).",
             "DESIGN.md §4 C17"),
     "C18": ("E3-fault-enumerators", "fault_enumeration",
             "exhaustive byte-level corruption enumeration (bit flips, overwrites, truncations at every offset of every column/index file) with query-sequence oracle",
@@ -91,7 +91,7 @@ CHECKS = {
     "C11": ("E1-small-scope", "exploration",
             "exhaustive small-scope enumeration of operator inputs x operator parameters on hand-built physical plans, differential oracle between the physical implementations",
             "For every pair of input contents of the stated domain, every join type, key-list width and residual option, the nested-loop, hash and merge join plans are built programmatically and run by the real executor; likewise hash/sort/simple aggregation and limit(order) vs top-N; all implementations must return the same multiset.",
-            "Bounded: inputs = all multisets of <= 2 (quick) / 3 (thorough) rows over a 6-row universe with NULL and duplicate keys, plus 1030/2050-row inputs crossing the 1024-row chunk; INT keys only (mixed widths are covered end-to-end by C01/C02); order-dependent aggregates (first/last) excluded.",
+            "Bounded: inputs = all multisets of <= 2 (quick) / 3 (thorough) rows over a 6-row universe with NULL and duplicate keys, plus 1030/2050-row inputs crossing the 1024-row chunk; INT keys on both sides and INT vs BIGINT/SMALLINT keys; order-dependent aggregates (first/last) excluded.",
             "DESIGN.md §4 C11"),
     "C12": ("E2-history-explorer", "model_checking",
             "bounded exhaustive history exploration on the real engine (all op sequences up to depth d x all ORDER BY/LIMIT/OFFSET queries), relational oracle",
@@ -101,12 +101,12 @@ CHECKS = {
     "C19": ("E1-small-scope", "exploration",
             "exhaustive enumeration of all pairs/triples of a boundary value set per type, cross-checking every relation the engine derives from values",
             "For each type all pairs and triples of V_T are checked for the equivalence and total-order laws of = and <, and ORDER BY (asc/desc), GROUP BY, DISTINCT, hash join, MIN/MAX and the primary-key storage order (before/after compaction) must describe the same relations; printed values re-inserted as text must be equal.",
-            "Bounded: 11 types, 4-11 values each; NaN/infinity and vectors not reachable; DataValue-level Hash is checked through GROUP BY / hash join behaviour.",
+            "Bounded: 12 types (incl. VECTOR(3)), 4-12 values each (intervals with a sub-day part, blobs with quotes and backslashes); NaN/infinity literals not reachable; DataValue-level Hash is checked through GROUP BY / hash join behaviour.",
             "DESIGN.md §4 C19"),
     "C20": ("E1-small-scope", "exploration",
             "exhaustive small-scope enumeration of column types x boundary cell values x CSV options x engines, round-trip oracle",
             "Every table of the stated domain is exported with COPY TO and imported with COPY FROM under the same options; the two tables must be equal as multisets.",
-            "Bounded: 9 scalar types, 1-2 columns, boundary values (NULL, '', delimiter/quote/newline in strings, extremes), 5 option sets, one 1030-row table.",
+            "Bounded: 12 types (incl. INTERVAL, BLOB, VECTOR), 1-2 columns, boundary values (NULL, '', delimiter / quote / newline / backslash / edge whitespace in strings, extremes), 7 option sets (delimiter, quote, header, escape), one 1030-row table.",
             "DESIGN.md §4 C20"),
 }
 NOT_YET = {}
